@@ -6,6 +6,7 @@ From InToto.Model Require EntryRun.
 From InToto.Model Require Import EntryResolve.
 From InToto.Model Require EntryRecord.
 From InToto.Model Require EntryStreams.
+From InToto.Model Require EntrySublay.
 
 Definition s_ok : str := [111;107]%N.
 Definition jok (j : json) : json := JDict [(s_ok, j)].
@@ -131,6 +132,7 @@ Definition run_op (op : str) (arg : json) : json :=
   else if eqs op op_rules_trace then rules_trace arg
   else if eqs op op_fnmatch then fnmatch_op arg
   else match EntryStreams.run_op_streams op arg with Some j => j | None =>
+  match EntrySublay.run_op_sublay op arg with Some r => r | None =>
   if eqs op op_lower then match arg with JStr s => jok (JStr (lower s)) | _ => jerr EUnmodelled end
   else if eqs op op_upper then match arg with JStr s => jok (JStr (upper s)) | _ => jerr EUnmodelled end
   else if eqs op op_unpack_rule then jres meaning_json (unpack_rule arg)
@@ -139,6 +141,7 @@ Definition run_op (op : str) (arg : json) : json :=
     jres jstr_list (do m <- unpack_rule arg; pack_rule m)
   else match EntryRun.run_op_run op arg with Some r => r | None =>
   jerr EUnmodelled end
+  end
   end
   end.
 
